@@ -27,15 +27,16 @@ static int it_count;          /* mirror: number of next() calls that yielded, ca
 #define MAXTAG (1 << 16)
 static unsigned char tagA[MAXTAG], tagB[MAXTAG];
 static long next_tag;
+static long rb_count;         /* read-backs so far in this script: rotates the class of the probe objects */
 
 static spif_vector_t new_vector(void) {
     if (cu_is("array")) return SPIF_VECTOR_NEW(array);
     if (cu_is("linked_list")) return SPIF_VECTOR_NEW(linked_list);
     return SPIF_VECTOR_NEW(dlinked_list);
 }
-/* an element to store (tag > 0) or a probe (tag 0) */
-static spif_obj_t mk_elem(long v, long tag) {
-    spif_obj_t s = cu_mk(v), t, p;
+/* an element to store (tag > 0) or a probe (tag 0); cls 1: the value object is a spif_str, 2: a spif_url with the same text */
+static spif_obj_t mk_elem(long v, long tag, long cls) {
+    spif_obj_t s = cu_mkc(v, cls), t, p;
     char tt[32];
     if (!kind) return s;
     snprintf(tt, sizeof(tt), "%ld", tag);
@@ -69,6 +70,7 @@ static const char *readback(spif_vector_t V, const char *which, unsigned char *t
     static unsigned char seen[MAXTAG];
     long n = (long) SPIF_VECTOR_COUNT(V), i, e, npr = 0, q;
     long probes[16];
+    long rb = ++rb_count;
     spif_iterator_t it;
     spif_obj_t *arr;
     const char *inv;
@@ -116,7 +118,7 @@ static const char *readback(spif_vector_t V, const char *which, unsigned char *t
         memset(cnt, 0, sizeof(long) * (size_t) (NE + 2));
         for (i = 0; i < n; i++) if (vals[i] >= 0 && vals[i] <= NE + 1) cnt[vals[i]]++;
         for (e = 0; e <= NE + 1; e++) {
-            spif_obj_t probe = mk_elem(e, 0), r = SPIF_VECTOR_FIND(V, probe);
+            spif_obj_t probe = mk_elem(e, 0, 1 + ((e + rb) & 1)), r = SPIF_VECTOR_FIND(V, probe);
             spif_bool_t c = SPIF_VECTOR_CONTAINS(V, probe);
             long rv = elem_val(r);
             SPIF_OBJ_DEL(probe);
@@ -134,7 +136,7 @@ static const char *readback(spif_vector_t V, const char *which, unsigned char *t
         if (n > 0) {
             pos[0] = 0; pos[1] = n > 1 ? 1 : 0; pos[2] = n / 2; pos[3] = n > 1 ? n - 2 : 0; pos[4] = n - 1;
             for (q = 0; q < 5; q++) {
-                spif_obj_t probe = mk_elem(vals[pos[q]], 0), r = SPIF_VECTOR_FIND(V, probe);
+                spif_obj_t probe = mk_elem(vals[pos[q]], 0, 1 + ((q + rb) & 1)), r = SPIF_VECTOR_FIND(V, probe);
                 spif_bool_t c = SPIF_VECTOR_CONTAINS(V, probe);
                 SPIF_OBJ_DEL(probe);
                 if (SPIF_OBJ_ISNULL(r) || !c) CU_FAIL("%s:find_misses_a_present_element(%s)", which, pc[q]);
@@ -147,7 +149,7 @@ static const char *readback(spif_vector_t V, const char *which, unsigned char *t
         if (n > 0 && vals[0] > 1) probes[npr++] = vals[0] - 1;
         if (n > 0 && vals[n - 1] < NE) probes[npr++] = vals[n - 1] + 1;
         for (q = 0; q < npr; q++) {
-            spif_obj_t probe = mk_elem(probes[q], 0), r = SPIF_VECTOR_FIND(V, probe);
+            spif_obj_t probe = mk_elem(probes[q], 0, 1 + ((q + rb) & 1)), r = SPIF_VECTOR_FIND(V, probe);
             spif_bool_t c = SPIF_VECTOR_CONTAINS(V, probe);
             SPIF_OBJ_DEL(probe);
             if (!SPIF_OBJ_ISNULL(r) || c) CU_FAIL("%s:find_returns_something_for_an_absent_probe", which);
@@ -169,6 +171,10 @@ static const char *dup_slots_equal(void) {
     for (i = 0; i < n && !bad; i++) {
         if (x[i] == y[i]) bad = "dup_shares_an_element_object_with_the_original";
         else if (elem_val(x[i]) != elem_val(y[i])) bad = "dup_slot_holds_a_different_value";
+        else if (SPIF_OBJ_CLASS(x[i]) != SPIF_OBJ_CLASS(y[i])
+                 || (kind && SPIF_OBJ_IS_OBJPAIR(x[i]) && SPIF_OBJ_IS_OBJPAIR(y[i])
+                     && SPIF_OBJ_CLASS(SPIF_OBJPAIR(x[i])->key) != SPIF_OBJ_CLASS(SPIF_OBJPAIR(y[i])->key)))
+            bad = "dup_changed_the_class_of_an_element";
         else if (kind && elem_tag(x[i]) != elem_tag(y[i])) bad = "dup_slot_holds_a_copy_of_a_different_(equal)_element";
     }
     if (x) FREE(x);
@@ -182,6 +188,7 @@ static void vh_begin(void) {
     A = new_vector(); B = (spif_vector_t) NULL; IT = (spif_iterator_t) NULL; it_count = -1;
     if (kind) { memset(tagA, 0, sizeof(tagA)); memset(tagB, 0, sizeof(tagB)); }
     next_tag = 0;
+    rb_count = 0;
 }
 static void vh_end(void) {
     if (!SPIF_ITERATOR_ISNULL(IT)) { SPIF_ITERATOR_DEL(IT); IT = (spif_iterator_t) NULL; }
@@ -189,11 +196,11 @@ static void vh_end(void) {
     if (!SPIF_VECTOR_ISNULL(A)) { SPIF_VECTOR_DEL(A); A = (spif_vector_t) NULL; }
 }
 
-static const char *do_insert(spif_vector_t V, unsigned char *tags, long v, spif_bool_t *res) {
+static const char *do_insert(spif_vector_t V, unsigned char *tags, long v, long cls, spif_bool_t *res) {
     spif_obj_t e;
     if (next_tag + 1 >= MAXTAG) return "harness:too_many_elements";
     next_tag++;
-    e = mk_elem(v, next_tag);
+    e = mk_elem(v, next_tag, cls);
     *res = SPIF_VECTOR_INSERT(V, e);
     if (!*res) SPIF_OBJ_DEL(e);          /* refused: the element is still the caller's */
     else tags[next_tag] = 1;
@@ -218,19 +225,19 @@ static const char *vh_step(const vh_step_t *st, vh_sb *ret, vh_sb *state) {
 
     if (OP("insert")) {
         spif_bool_t r;
-        if ((inv = do_insert(V, tags, vh_int(st->args[0]), &r))) return inv;
+        if ((inv = do_insert(V, tags, vh_int(st->args[0]), cu_clsarg(st, 1), &r))) return inv;
         sb_bool(ret, r);
     } else if (OP("fill")) {
-        long lo = vh_int(st->args[0]), hi = vh_int(st->args[1]), stp = vh_int(st->args[2]), v, k = 0;
+        long lo = vh_int(st->args[0]), hi = vh_int(st->args[1]), stp = vh_int(st->args[2]), v, k = 0, mix = cu_clsarg(st, 3);
         if (stp < 1) return "fill:bad_step";
         for (v = lo; v <= hi; v += stp) {
             spif_bool_t r;
-            if ((inv = do_insert(V, tags, v, &r))) return inv;
+            if ((inv = do_insert(V, tags, v, cu_mixcls(mix, v), &r))) return inv;
             if (r) k++;
         }
         sb_int(ret, k);
     } else if (OP("remove")) {
-        spif_obj_t probe = mk_elem(vh_int(st->args[0]), 0), r = SPIF_VECTOR_REMOVE(V, probe);
+        spif_obj_t probe = mk_elem(vh_int(st->args[0]), 0, cu_clsarg(st, 1)), r = SPIF_VECTOR_REMOVE(V, probe);
         sb_int(ret, elem_val(r));
         if (r == probe) { SPIF_OBJ_DEL(probe); return "remove_returned_the_probe_object"; }
         inv = take_back(tags, r);
@@ -239,7 +246,7 @@ static const char *vh_step(const vh_step_t *st, vh_sb *ret, vh_sb *state) {
         if (inv) return inv;
     } else if (OP("remove_own")) {
         /* aliased argument: the probe IS the stored element */
-        spif_obj_t probe = mk_elem(vh_int(st->args[0]), 0), own = SPIF_VECTOR_FIND(V, probe), r;
+        spif_obj_t probe = mk_elem(vh_int(st->args[0]), 0, 1), own = SPIF_VECTOR_FIND(V, probe), r;
         SPIF_OBJ_DEL(probe);
         if (SPIF_OBJ_ISNULL(own)) return "remove_own:element_absent";
         r = SPIF_VECTOR_REMOVE(V, own);
@@ -251,13 +258,13 @@ static const char *vh_step(const vh_step_t *st, vh_sb *ret, vh_sb *state) {
         sb_bool(ret, SPIF_VECTOR_DONE(V));
         if (kind) memset(tags, 0, MAXTAG);
     } else if (OP("find")) {
-        spif_obj_t probe = mk_elem(vh_int(st->args[0]), 0), r = SPIF_VECTOR_FIND(V, probe);
+        spif_obj_t probe = mk_elem(vh_int(st->args[0]), 0, cu_clsarg(st, 1)), r = SPIF_VECTOR_FIND(V, probe);
         sb_int(ret, elem_val(r));
         if (r == probe) { SPIF_OBJ_DEL(probe); return "find_returned_the_probe_object"; }
         SPIF_OBJ_DEL(probe);
         if (kind && !SPIF_OBJ_ISNULL(r) && (elem_tag(r) < 1 || !tags[elem_tag(r)])) return "find_returned_an_element_not_stored(tag)";
     } else if (OP("contains")) {
-        spif_obj_t probe = mk_elem(vh_int(st->args[0]), 0);
+        spif_obj_t probe = mk_elem(vh_int(st->args[0]), 0, cu_clsarg(st, 1));
         sb_bool(ret, SPIF_VECTOR_CONTAINS(V, probe));
         SPIF_OBJ_DEL(probe);
     } else if (OP("count")) {
@@ -322,6 +329,7 @@ int main(int argc, char **argv) {
     if (NE < 1 || NE > 32000 || (!compact && NE > 16000)) { fprintf(stderr, "bad NE\n"); return 2; }
     if (cu_enc_arg == 2 && NE > 253) { fprintf(stderr, "family 2 needs NE <= 253\n"); return 2; }
     cu_N = NE;
+    cu_warm_libc();
     libast_set_program_name("vector_replay");
     DEBUG_LEVEL = 0;
     return vh_main(argc, argv, 6);
